@@ -407,6 +407,26 @@ func (e *c5e) nestedEmbedding() bool {
 	})
 }
 
+// requiredUnderHidden: a `!` field occurs somewhere below a hidden or definition field.
+func (e *c5e) requiredUnderHidden() bool {
+	hasReq := func(n *c5e) bool {
+		for _, d := range n.decls {
+			if d.kind == 'f' && d.marker == "!" {
+				return true
+			}
+		}
+		return false
+	}
+	return e.anyNode(func(n *c5e) bool {
+		for _, d := range n.decls {
+			if d.kind == 'f' && (d.label[0] == '_' || d.label[0] == '#') && d.v.anyNode(hasReq) {
+				return true
+			}
+		}
+		return false
+	})
+}
+
 // recConj: a conjunction one of whose operands is (or embeds) a definition reference.
 func (e *c5e) recConj() bool {
 	if e.op != '&' {
@@ -495,7 +515,8 @@ func c5eval(src string, wantAllows bool) (res c5res) {
 		res.fields = c5fields(x)
 	}
 	if wantAllows {
-		res.plain = res.class == "ok" || x.Validate() == nil
+		// Allows is only meaningful on a valid value (on an erroneous one it answers true)
+		res.plain = res.class == "ok"
 		if res.plain {
 			res.allows = map[string]bool{}
 			for _, l := range c5allowLabels {
@@ -548,16 +569,28 @@ func c5genLabel(r *Rng) string {
 }
 
 // c5genStruct generates a struct-valued expression of nesting depth <= depth.
-func c5genStruct(r *Rng, depth int, allowConj bool) *c5e {
+// c5noD > 0 while generating the value of a hidden/definition field: no definition
+// references there (an error inside a REFERENCED definition below a hidden field is not
+// surfaced by Validate — structure sharing —, which is outside this property).
+// Generation is sequential, so a package-level counter is safe.
+var c5noD int
+
+func c5genStruct(r *Rng, depth int, allowConj, noReg bool) *c5e {
 	if allowConj && r.Chance(1, 6) {
 		n := 2 + r.Intn(2)
 		var es []*c5e
 		for i := 0; i < n; i++ {
-			es = append(es, c5genStruct(r, depth, false))
+			es = append(es, c5genStruct(r, depth, false, noReg))
 		}
 		return conj(es...)
 	}
-	l := c5genLit(r, depth)
+	l := c5genLit(r, depth, noReg)
+	if c5noD > 0 {
+		if r.Chance(1, 4) {
+			return cl(l)
+		}
+		return l
+	}
 	switch r.Intn(10) {
 	case 0, 1, 2:
 		return df(l)
@@ -574,14 +607,18 @@ func c5genStruct(r *Rng, depth int, allowConj bool) *c5e {
 	return l
 }
 
-func c5genValue(r *Rng, depth int) *c5e {
+func c5genValue(r *Rng, depth int, noReg bool) *c5e {
 	if depth <= 0 || r.Chance(2, 5) {
 		return c5genScalar(r)
 	}
-	return c5genStruct(r, depth-1, r.Chance(1, 3))
+	return c5genStruct(r, depth-1, r.Chance(1, 3), noReg)
 }
 
-func c5genLit(r *Rng, depth int) *c5e {
+// noReg: only optional fields (no regular, no required ones) at any depth — used for the operands of embedded
+// conjunctions: a closedness violation INSIDE an embedded conjunction (a regular field of
+// one operand that another operand does not allow) is an error of the embedded value
+// itself, which the model does not represent.
+func c5genLit(r *Rng, depth int, noReg bool) *c5e {
 	n := r.Intn(4)
 	if r.Chance(1, 10) {
 		n = 4 + r.Intn(2)
@@ -591,19 +628,34 @@ func c5genLit(r *Rng, depth int) *c5e {
 		switch r.Intn(14) {
 		case 0, 1, 2, 3, 4, 5, 6:
 			m := Pick(r, []string{"", "?", "?", "!"})
-			v := c5genValue(r, depth)
+			if noReg {
+				m = "?" // (required arcs count as present for the typo check, too)
+			}
+			lab := c5genLabel(r)
+			hid := lab[0] == '_' || lab[0] == '#'
+			if hid {
+				c5noD++
+			}
+			v := c5genValue(r, depth, noReg)
+			if hid {
+				c5noD--
+			}
 			if m == "!" {
 				// a required constraint whose value is bottom makes the struct bottom; whether
 				// that is reported below hidden/definition fields is outside this property
 				v = c5top
 			}
-			ds = append(ds, fld(c5genLabel(r), m, v))
+			ds = append(ds, fld(lab, m, v))
 		case 7, 8:
-			ds = append(ds, ptn(Pick(r, c5pats), c5genValue(r, depth)))
+			ds = append(ds, ptn(Pick(r, c5pats), c5genValue(r, depth, noReg)))
 		case 9:
 			ds = append(ds, ellD())
 		default:
-			ds = append(ds, emb(c5genStruct(r, depth, r.Chance(1, 4))))
+			if r.Chance(1, 4) {
+				ds = append(ds, emb(c5genStruct(r, depth, true, true)))
+			} else {
+				ds = append(ds, emb(c5genStruct(r, depth, false, noReg)))
+			}
 		}
 	}
 	return lit(ds...)
@@ -729,6 +781,8 @@ func c5emit(c *Cfg, o c5out) {
 			tag = "ellipsis-inside-embedding"
 		case o.cs.schema.nestedEmbedding():
 			tag = "nested-embedding"
+		case o.cs.schema.requiredUnderHidden():
+			tag = "bottom-required-constraint-under-hidden-field"
 		}
 	}
 	ans := o.res.class
@@ -928,9 +982,23 @@ func runC05(c *Cfg) {
 		c5replay(c)
 		return
 	}
-	r := NewRng(c.Seed)
+	// NewRng(seed) and NewRng(seed+1) produce the same stream shifted by one: decorrelate
+	r := NewRng(c.Seed).Sub()
 	var cases []c5case
-	add := func(kind string, s, d *c5e) { cases = append(cases, c5case{schema: s, data: d, kind: kind}) }
+	directEvery := c.Pick(5, 3)
+	if c.Focus {
+		directEvery = 0
+	}
+	flush := func() {
+		c5runAll(c, cases, directEvery)
+		cases = cases[:0]
+	}
+	add := func(kind string, s, d *c5e) {
+		cases = append(cases, c5case{schema: s, data: d, kind: kind})
+		if len(cases) >= 40000 { // bounded memory: run and emit in batches
+			flush()
+		}
+	}
 
 	// ---- corpus: the corner cases named in the property / found while building ----------
 	A := func(m string, v *c5e) c5d { return fld("a", m, v) }
@@ -952,6 +1020,8 @@ func runC05(c *Cfg) {
 		// sole embedding of a conjunction with a definition (C05_sole_embedding_false)
 		conj(df(lit(B("?", c5top))), lit(B("?", lit(C("?", c5int))))),
 		lit(emb(conj(df(lit(B("?", c5top))), lit(B("?", lit(C("?", c5int))))))),
+		// a bottom required constraint below a hidden field switches the typo check off
+		df(lit(fld("_h", "", lit(fld("ab", "!", c5one), fld("ab", "!", c5two))))),
 		// `{A}` versus `A` with an ellipsis in an embedded conjunction / nested embeddings
 		lit(emb(conj(df(lit(A("?", c5int))), lit(ellD())))),
 		lit(emb(lit(emb(lit(ellD())), A("?", df(lit()))))),
@@ -1053,7 +1123,7 @@ func runC05(c *Cfg) {
 	}
 
 	// ---- random: depth <= 3, conjunctions of <= 3, reached directly / via definition / embedded
-	nrand := c.Pick(25000, 1200000)
+	nrand := c.Pick(25000, 500000)
 	if c.Focus {
 		nrand = c.Pick(150000, 600000)
 	}
@@ -1063,14 +1133,10 @@ func runC05(c *Cfg) {
 		nc := 1 + rr.Intn(3)
 		var es []*c5e
 		for j := 0; j < nc; j++ {
-			es = append(es, c5genStruct(rr, depth-1, false))
+			es = append(es, c5genStruct(rr, depth-1, false, false))
 		}
 		add(fmt.Sprintf("random-depth%d-conj%d", depth, nc), conj(es...), c5genData(rr, depth-1+rr.Intn(2)))
 	}
 
-	directEvery := c.Pick(5, 3)
-	if c.Focus {
-		directEvery = 0
-	}
-	c5runAll(c, cases, directEvery)
+	flush()
 }
